@@ -688,6 +688,10 @@ class Origins:
                 continue
             if isinstance(n, ast.Compare):
                 continue   # a comparison yields booleans: neither operand is the origin of the *value*
+            if isinstance(n, ast.Call) and isinstance(n.func, ast.Name) and n.func.id == "len":
+                continue   # a count: the counted values are not its origin
+            if isinstance(n, ast.Attribute) and n.attr in ("shape", "size", "ndim"):
+                continue
             if isinstance(n, ast.Subscript):
                 stack.append(n.value)
                 if isinstance(n.slice, ast.Constant):
@@ -731,7 +735,19 @@ class Origins:
             return
         _seen.add(d)
         if d.kind in ("assign", "unpack", "aug", "for", "with", "store") and d.value is not None:
-            yield from self.expand(d.value, d.node, _seen, _depth + 1)
+            v = d.value
+            idx = d.index if isinstance(d.index, tuple) else None
+            if d.kind == "for" and idx and isinstance(v, ast.Call) and isinstance(v.func, ast.Name) and v.func.id == "enumerate" and v.args:
+                if idx[0] == 0:
+                    v = None              # the counter of enumerate(): an integer, no origin in the iterated values
+                else:
+                    v, idx = v.args[0], idx[1:]
+            # a, b = x, y : each target takes its own element
+            while v is not None and idx and d.kind in ("unpack", "assign") and isinstance(v, (ast.Tuple, ast.List)) and idx[0] < len(v.elts) \
+                    and not any(isinstance(e, ast.Starred) for e in v.elts):
+                v, idx = v.elts[idx[0]], idx[1:]
+            if v is not None:
+                yield from self.expand(v, d.node, _seen, _depth + 1)
         for p in d.prev:
             yield from self._expand_def(p, _seen, _depth)
 
